@@ -212,6 +212,9 @@ pub fn minimise<F: FnMut(&Case) -> Option<(String, Vec<(usize, u64)>)>>(
     signature: &str,
     mut fails: F,
 ) -> Case {
+    if !crate::report::minimise_on() {
+        return case.clone();
+    }
     let mut best = case.clone();
     let same = |s: &Option<(String, Vec<(usize, u64)>)>| s.as_ref().map(|x| x.0 == signature).unwrap_or(false);
     // 1. forms
